@@ -162,7 +162,13 @@ class Section(Entity):
 
         prop = Property.create_new(self.file, self, properties,
                                    name, dtype, shape, oid)
-        prop.values = vals
+        try:
+            prop.values = vals
+        except Exception:
+            # do not leave a property without its values behind
+            if name in properties:
+                properties.delete(name, False)
+            raise
 
         return prop
 
